@@ -53,6 +53,19 @@ pub fn hash_case(out: &mut Out, p: &Pos, prefix: &str, depths: &[u8]) {
     out.rec(&format!("hash {} {} {}", d, fbits(p.lon), fbits(p.lat)), &opt_u64(r));
     results.push((d, r));
   }
+  if prefix == "C01" && valid {
+    // right after the position itself, the position with the sign bit of its longitude flipped (equal as a number when
+    // lon = +-0.0, a different position in the polar caps): an answer kept from the previous call would not contain it
+    if let Some(&(d, _)) = results.last() {
+      let r2 = catch(|| get_or_create(d).hash(lon2, p.lat));
+      out.rec(&format!("hash {} {} {}", d, fbits(lon2), fbits(p.lat)), &opt_u64(r2));
+      if let Some(h2) = r2 {
+        let (x2, y2) = proj_ref(lon2, p.lat);
+        let tol = 1e-9 + (1u64 << d) as f64 * 2e-14 * (1.0 + lon2.abs());
+        if h2 < (12u64 << (2 * d as u32)) { let (ok, ex) = in_cell(d, h2, x2, y2, tol); if !ok { out.violation("C01:not-in-cell", format!("depth={} lon={:e} ({}) lat={:e} ({}) class={} (hashed right after the longitude of opposite sign)", d, lon2, fbits(lon2), p.lat, fbits(p.lat), p.class), format!("point within {:e} cell units of cell {}", tol, h2), format!("{:e} cell units outside", ex)); } }
+      }
+    }
+  }
   if prefix == "C02" {
     if let Some(&(d0, r0)) = results.first() {
       let again = catch(|| get_or_create(d0).hash(p.lon, p.lat));
